@@ -1737,11 +1737,15 @@ func hrObserveHeal(w *hrWorld, sc *hrScenario, job *hrJob, out *hrOutcome) {
 
 // ---------------------------------------------------------------- free-running executions (trace validation, B3)
 
+type hrOp struct {
+	Op string `json:"op"` // new | hr | waitdone | exit | kill | waitheal | close | sleep
+	A  int    `json:"a"`  // epoch / pool / milliseconds
+}
+
 type hrFree struct {
-	Name   string `json:"name"`
-	NP     int    `json:"np"`
-	Script string `json:"script"`
-	Seed   int64  `json:"seed"`
+	Name string `json:"name"`
+	NP   int    `json:"np"`
+	Ops  []hrOp `json:"ops"`
 }
 
 // ---------------------------------------------------------------- entry point
@@ -1841,4 +1845,210 @@ func TestVS_HotRestart(t *testing.T) {
 	}
 }
 
-func hrRunFree(job *hrJob, res *hrResult) {}
+// one trace line (NDJSON) for specs/Trace_HotRestart.tla
+type hrLine struct {
+	Ev  string `json:"ev"`
+	S   int    `json:"s"`
+	A   int    `json:"a"`
+	B   int    `json:"b"`
+	T   []int  `json:"t"`
+	Srv string `json:"srv"`
+	Run string `json:"run"`
+}
+
+// free-running executions of the real code (no interception): every hook event is recorded in the global order of
+// the hooks' sequence numbers; sessions are numbered in creation order like the model does
+func hrRunFree(job *hrJob, res *hrResult) {
+	if len(job.Free) == 0 || !hrHooksOn || job.TraceFile == "" {
+		return
+	}
+	f, err := os.Create(job.TraceFile)
+	if err != nil {
+		res.FreeNotes = append(res.FreeNotes, "cannot create trace file: "+err.Error())
+		return
+	}
+	defer f.Close()
+	enc := json.NewEncoder(f)
+	rebuild := time.Duration(job.RebuildMs) * time.Millisecond
+	for fi := range job.Free {
+		fr := &job.Free[fi]
+		w, err := hrNewWorld(fr.Name, fr.NP, rebuild, false)
+		if err != nil {
+			res.FreeNotes = append(res.FreeNotes, fr.Name+": cannot set up: "+err.Error())
+			continue
+		}
+		w.startTraffic()
+		env := func(ev string, a int) {
+			seq := atomic.AddInt64(&hrGlobalSeq, 1)
+			w.mu.Lock()
+			w.evs = append(w.evs, hrEv{Seq: seq, Ev: ev, A: int64(a)})
+			w.mu.Unlock()
+		}
+		healed := func(d time.Duration) bool {
+			return w.waitFor(d, func() bool {
+				for p := 0; p < w.np; p++ {
+					if err, _ := w.probePool(p, "free"); err != nil {
+						return false
+					}
+				}
+				return true
+			})
+		}
+		note := ""
+		for _, op := range fr.Ops {
+			switch op.Op {
+			case "new":
+				env("NewServerStarts", 0)
+				l, cl, err := w.startListener()
+				if err != nil {
+					note = "cannot start the new listener: " + err.Error()
+				}
+				w.newL, w.newLn = l, cl
+			case "hr":
+				if err := w.oldL.HotRestart(uint64(op.A)); err != nil {
+					note = "HotRestart: " + err.Error()
+				}
+			case "waitdone":
+				if !w.waitFor(hrLeaveLimit, func() bool { return w.lstate() != hotRestartState && w.mstate() != hotRestartState }) {
+					note = "still in the hot-restart state"
+				}
+			case "exit":
+				w.oldClosed = true
+				w.oldL.Close()
+			case "kill":
+				// close the server end of the session currently behind pool op.A
+				w.sm.RLock()
+				c := w.sm.pools[op.A].Session()
+				w.sm.RUnlock()
+				for _, l := range []*Listener{w.oldL, w.newL} {
+					if l == nil {
+						continue
+					}
+					var victim *Session
+					l.sessions.sessionMu.Lock()
+					for sv := range l.sessions.data {
+						if sv.name == c.name && !sv.IsClosed() {
+							victim = sv
+						}
+					}
+					l.sessions.sessionMu.Unlock()
+					if victim != nil {
+						victim.Close()
+					}
+				}
+				w.waitFor(hrWaitLimit, func() bool { return c.IsClosed() })
+			case "waitheal":
+				if !healed(time.Duration(op.A)*rebuild + 8*time.Second) {
+					note = "pools not healed"
+				}
+			case "close":
+				w.closeDone = make(chan struct{})
+				w.sm.Close()
+				close(w.closeDone)
+			case "sleep":
+				time.Sleep(time.Duration(op.A) * time.Millisecond)
+			}
+			if note != "" {
+				break
+			}
+		}
+		time.Sleep(2*rebuild + 20*time.Millisecond)
+		close(w.trafStop)
+		w.trafWg.Wait()
+		// ---- number the sessions and write the trace
+		w.mu.Lock()
+		evs := append([]hrEv(nil), w.evs...)
+		w.mu.Unlock()
+		sort.Slice(evs, func(i, j int) bool { return evs[i].Seq < evs[j].Seq })
+		ids := map[*Session]int{}
+		byName := map[string][]*Session{} // client sessions by name, in creation order
+		next := 1
+		for p := 0; p < fr.NP; p++ {
+			c := w.cli[p+1]
+			ids[c] = next
+			byName[c.name] = append(byName[c.name], c)
+			next++
+		}
+		firstPick := map[int]bool{}
+		_ = enc.Encode(hrLine{Ev: "reset", A: fr.NP, T: []int{}, Run: fr.Name})
+		n := 0
+		resolve := func(s *Session) int {
+			if s == nil {
+				return 0
+			}
+			if s.isClient {
+				return ids[s]
+			}
+			lst := byName[s.name]
+			if len(lst) == 0 {
+				return 0
+			}
+			return ids[lst[len(lst)-1]]
+		}
+		for i := 0; i < len(evs); i++ {
+			e := evs[i]
+			ln := hrLine{Ev: e.Ev, A: int(e.A), B: int(e.B), T: []int{}, Run: fr.Name}
+			switch e.Ev {
+			case "SClose":
+				if e.S == nil || !e.S.isClient {
+					continue
+				}
+				if _, ok := ids[e.S]; !ok {
+					continue // a session that never made it into a pool (e.g. closed during set-up)
+				}
+				ln.S = ids[e.S]
+			case "MSwap", "WConn":
+				ids[e.S] = next
+				byName[e.S.name] = append(byName[e.S.name], e.S)
+				ln.S = next
+				next++
+			case "LBegin":
+				// the sessions notified in this call: the LNotify events up to LEnd
+				for j := i + 1; j < len(evs); j++ {
+					if evs[j].Ev == "LEnd" && evs[j].Obj == e.Obj {
+						break
+					}
+					if evs[j].Ev == "LNotify" && evs[j].Obj == e.Obj {
+						ln.T = append(ln.T, resolve(evs[j].S))
+					}
+				}
+				sort.Ints(ln.T)
+			case "LClose":
+				if l, ok := e.Obj.(*Listener); ok && l == w.oldL {
+					ln.A = 0
+				} else {
+					continue
+				}
+			case "LDone", "LTimeout", "LEnd", "LAck", "LNotify":
+				if l, ok := e.Obj.(*Listener); ok && l != w.oldL {
+					continue
+				}
+				ln.S = resolve(e.S)
+			case "WRebuilt", "SMClosing":
+				continue
+			case "WPick":
+				// the model starts with every watcher already waiting on its initial session
+				if !firstPick[int(e.A)] {
+					firstPick[int(e.A)] = true
+					if id, ok := ids[e.S]; ok && id == int(e.A)+1 {
+						continue
+					}
+				}
+				ln.S = resolve(e.S)
+			case "WLost":
+				firstPick[int(e.A)] = true
+			default:
+				ln.S = resolve(e.S)
+			}
+			if err := enc.Encode(ln); err == nil {
+				n++
+			}
+		}
+		res.FreeRuns++
+		res.FreeEvents += n
+		if note != "" {
+			res.FreeNotes = append(res.FreeNotes, fr.Name+": "+note)
+		}
+		w.destroy()
+	}
+}
